@@ -28,7 +28,7 @@ ASSUMPTIONS = ['failpoints sit at python-level step boundaries; a crash inside o
                'a hung pool after a dead worker is killed by the watchdog and judged on the files it left (no liveness claim)',
                'the clean run must report success, otherwise the case is inconclusive']
 MIN_NONTRIVIAL = {'quick': 50, 'thorough': 1500}
-REQUIRED_MONITORS = ['trace:steps_recorded', 'fault:fired', 'fault:raise', 'fault:exit', 'fault:kill', 'fault:persistent', 'history:stale_success_of_earlier_run', 'layout:more_than_100_small_contigs', 'layout:more_than_500_large_contigs', 'layout:last_small_contig_holds_supplementary_records_only', 'fault:class:OSError', 'fault:class:RuntimeError', 'oracle:status_read', 'oracle:success_verified',
+REQUIRED_MONITORS = ['trace:steps_recorded', 'fault:fired', 'fault:raise', 'fault:exit', 'fault:kill', 'fault:persistent', 'history:stale_success_of_earlier_run', 'layout:more_than_100_small_contigs', 'layout:more_than_500_large_contigs', 'layout:last_small_contig_holds_supplementary_records_only', 'option:skip_contig', 'fault:class:OSError', 'fault:class:RuntimeError', 'oracle:status_read', 'oracle:success_verified',
                      'clean:success', 'pipeline:single', 'pipeline:multi', 'fault:in_worker']
 SHARD_TIMEOUT = {'quick': 1200, 'thorough': 14400}
 SUCCESS = 'Reached end. All ok!'
@@ -157,8 +157,14 @@ def run_case(case):
         gen, recs, truths = F.simulate_library(r, method=method, contigs=contigs, n_cells=2, n_sites=[2, 4, 8, 450][case['size']], umis_per_site=(1, 2),
                                                copies=(1, 2), case_id=900 + case['cfg'], n_unmapped=[0, 1, 3, 3][case['size']],
                                                p_invalid=0.1 if method == 'nla' else 0)
+    # every second shard of a configuration with several contigs leaves the first contig out (-skip_contig): its records are not part of the
+    # run, everything behind it is
+    skipped = gen.refs[0][0] if (len(gen.refs) > 1 and case['part'] % 2 == 1 and not case.get('many_contigs')) else None
+    acc.count('option:skip_contig', 1 if skipped else 0)
     expect = Counter()
     for rec in recs:
+        if skipped and rec.get('tid', -1) == 0:
+            continue
         expect[(F.id_from_name(rec['name']), 2 if rec['flag'] & 128 else 1)] += 1
     if multi and not case.get('many_large') and recs:
         # a decoy scaffold at the end of the header that holds nothing but supplementary alignments: it is scheduled (it has records) but no
@@ -176,6 +182,8 @@ def run_case(case):
     with Scratch('c20') as dd:
         bam = write_bam(os.path.join(dd, 'in.bam'), gen.refs, recs)
         base = {'bam': bam, 'method': method, 'multiprocess': multi, 'threads': 2, 'temp': dd}
+        if skipped:
+            base['extra_args'] = ['-skip_contig', skipped]
 
         def one(tag, fault, stale_from=None):
             sub = os.path.join(dd, tag)
